@@ -14,7 +14,7 @@ CONFIG = dict(
              "runtime.MemStats.TotalAlloc on everything generated (label-bearing values included, since /repo 6d867a5 builds "
              "names with strings.Builder: 584 bytes allocated per input byte on the dearest pointer fan, 4.6 per decoded "
              "name byte; before that fix the per-label string concatenation cost 33.8 kB per input byte)."),
-    rule=("oracle c09 (implementation only, adversarial): every input is decoded and re-encoded by the real library in "
+    rule=("oracle c09 (implementation only, adversarial): (families incl. two codes INSIDE one container - 4RD, IA_NA, IA_TA, IA_PD: minimal options of an unknown code, then or alternating with a code the container knows) every input is decoded and re-encoded by the real library in "
           "fresh single-goroutine `harness costprobe` subprocesses (collector off, GOMEMLIMIT, address-space rlimit, "
           "5..20 s watchdog); measured: TotalAlloc delta of decode and of decode+re-encode, reflective deep size (union of "
           "address intervals), option nesting depth, decoded name bytes, user CPU of the decode. Inputs 0..65507 bytes "
